@@ -72,6 +72,7 @@ def _residual(name):
             v.prove("lin.zero_iff_equilibrium_and_conserving", SP.iff(SP.conj([x == 0 for x in f]), at_eq))
         # --- squared variables
         z = [v.real("z_" + s, lo=-3, hi=3) for s in subs]
+        v.assume(SP.conj([SP.neg(zi == 0) for zi in z]))
         fs = v.call(NumSysSquare(eqsys, backend=math).f, z, params)
         fl = v.call(NumSysLin(eqsys, backend=math).f, [zi * zi for zi in z], params)
         v.prove("square.length", len(fs) == nr + nk)
